@@ -157,6 +157,14 @@ package providers
 //@     && recv(setAllowedGroups).SkipClaimsFromProfileURL == providerConfig.SkipClaimsFromProfileURL
 //@     && arg(setAllowedGroups, 1) == providerConfig.AllowedGroups
 //@ at call compileLoginParams assert[verifier-stored-in-the-provider-data] called(NewProviderVerifier) ==> recv(compileLoginParams).Verifier == ret(Verifier)
+//@ prop C05
+//@ at call setAllowedGroups assert[configured-code-challenge-method-is-always-applied] called(parseCodeChallengeMethod)
+//@     && recv(setAllowedGroups).CodeChallengeMethod == ret(parseCodeChallengeMethod)
+
+//@ func parseCodeChallengeMethod
+//@ nomod
+//@ prop C05
+//@ ensures[the-configured-method] result == providerConfig.CodeChallengeMethod
 
 // ------------------------------------------------------------------ C04 / C05 / C14: providers built on the OIDC provider delegate to it
 //@ func (*MicrosoftEntraIDProvider).ValidateSession
@@ -206,5 +214,5 @@ package providers
 // ------------------------------------------------------------------ C05: per-login parameters are never written into shared provider state
 //@ func (*ProviderData).LoginURLParams
 //@ fresh
-//@ prop C05
+//@ prop C05 C19
 //@ ensures[a-map-of-its-own-for-every-login] result != nil
